@@ -295,6 +295,11 @@ class Port_Matcher
         {
             if(strncmp(msg, fixed[i].c_str(), fixed[i].length()))
                 return false;
+            //a leaf's name ends where the address ends ("vol0" is not "vol");
+            //directories end in '/', enumerated names are checked by their pattern
+            if(!m_enump[i] && !fixed[i].empty() && fixed[i].back() != '/' &&
+               msg[fixed[i].length()])
+                return false;
             if(arg_spec[i])
                 return rtosc_match_args(arg_spec[i], msg);
             else
